@@ -7,21 +7,12 @@ verus! {
 pub type Protocol = i32;
 
 // ------------------------------------------------------------------ std::net
-#[derive(Clone, Copy, PartialEq, Eq, Structural)]
-pub struct IpAddr { pub v6: bool, pub bits: u128 }
-/// canonical text of an IP address (std `Display`): uninterpreted, injective (assumed)
-pub uninterp spec fn ip_text(ip: IpAddr) -> Seq<char>;
+//@include netmodel.rs
 pub broadcast axiom fn axiom_ip_text_small(ip: IpAddr)
     ensures #[trigger] encode_utf8(ip_text(ip)).len() <= 45;
 impl IpAddr {
     #[verifier::external_body]
     pub fn to_string(&self) -> (r: String) ensures r@ == ip_text(*self) { unimplemented!() }
-}
-#[derive(Clone, Copy, PartialEq, Eq, Structural)]
-pub struct SocketAddr { pub ipaddr: IpAddr, pub portno: u16 }
-impl SocketAddr {
-    pub fn ip(&self) -> (r: IpAddr) ensures r == self.ipaddr { self.ipaddr }
-    pub fn port(&self) -> (r: u16) ensures r == self.portno { self.portno }
 }
 
 // ------------------------------------------------------------------ opaque external values
